@@ -88,12 +88,26 @@ pub fn batch_case(
     false_at: &[usize],
     must_accept: bool,
 ) {
+    batch_case_deltas(ctx, rng, id, b, false_at, None, must_accept)
+}
+
+/// as `batch_case`; `deltas` (aligned with `false_at`) gives the value errors explicitly, e.g. a
+/// pair `(+d, -d)` of cancelling errors at two query points
+pub fn batch_case_deltas(
+    ctx: &mut Ctx,
+    rng: &mut Rng,
+    id: &str,
+    b: &Batch,
+    false_at: &[usize],
+    deltas: Option<&[Fr]>,
+    must_accept: bool,
+) {
     let vk = b.items[0].vk.clone();
     let cs: Vec<Commitment<Bls12_381>> = b.items.iter().map(|t| t.comm).collect();
     let zs: Vec<Fr> = b.items.iter().map(|t| t.z).collect();
     let mut vs: Vec<Fr> = b.items.iter().map(|t| t.v).collect();
-    for &i in false_at {
-        vs[i] += rand_nonzero(rng);
+    for (j, &i) in false_at.iter().enumerate() {
+        vs[i] += match deltas { Some(d) => d[j], None => rand_nonzero(rng) };
     }
     let ps: Vec<Proof<Bls12_381>> = b.items.iter().map(|t| t.proof).collect();
     let rs = replay_u128(rng, ps.len());
@@ -295,6 +309,14 @@ pub fn c05(ctx: &mut Ctx) {
             sub.push(range(&mut rng, 0, k - 1));
         }
         batch_case(ctx, &mut rng, &format!("C05/kzg10/{}/subset", i), &b, &sub, false);
+        // cancelling errors (+d, -d) on every ordered pair of query points
+        for a in 0..k {
+            for c in 0..k {
+                if a == c { continue; }
+                let d = rand_nonzero(&mut rng);
+                batch_case_deltas(ctx, &mut rng, &format!("C05/kzg10/{}/cancel{}-{}", i, a, c), &b, &[a, c], Some(&[d, -d]), false);
+            }
+        }
         // every subset for small k
         if k <= 3 {
             for mask in 1..(1usize << k) {
